@@ -156,10 +156,9 @@ func (h *Hasher) Str(s string) *Hasher {
 	return h
 }
 func (h *Hasher) Int(x int64) *Hasher {
-	for i := 0; i < 8; i++ {
-		h.h ^= uint64(byte(x >> (8 * i)))
-		h.h *= 1099511628211
-	}
+	h.h = (h.h ^ uint64(x)) * 1099511628211
+	h.h ^= h.h >> 29
+	h.h *= 0xbf58476d1ce4e5b9
 	return h
 }
 func (h *Hasher) Sum() uint64 { return h.h }
